@@ -315,8 +315,31 @@ def _mode_table(project, q, role_of):
         if t[0] == "attr" and t[1] in (("sym", "ImageMode"), ("sym", "cls")):
             return "MODE:" + t[2]
         return NotImplemented
+    # the grid: the documented values of each quantity plus every constant the function compares that quantity with
+    doms = {"NDIM": {2, 3}, "SHAPE2": {1, 3, 4}, "KIND": {"f", "u", "i"}, "ITEMSIZE": {1, 2, 4, 8}}
+    for pc, t, n in r.returns:
+        for c in pc:
+            if c[0] == "loop":
+                continue
+            for a in atoms_of(c[0]):
+                if a[0] == "op" and a[1].startswith("cmp:") and len(a[2]) == 2:
+                    for x, y in (a[2], a[2][::-1]):
+                        if x in roles:
+                            v = num_value(y)
+                            if v is not None and v.denominator == 1:
+                                doms[roles[x]].add(int(v))
+                            elif y[0] == "const" and isinstance(y[1], str):
+                                doms[roles[x]].add(y[1])
+                            elif y[0] in ("tuple", "list"):
+                                for z in y[1]:
+                                    vz = num_value(z)
+                                    if vz is not None and vz.denominator == 1:
+                                        doms[roles[x]].add(int(vz))
+                                    elif z[0] == "const" and isinstance(z[1], str):
+                                        doms[roles[x]].add(z[1])
     table = {}
-    for ndim, ch, kind, size in itertools.product((2, 3), (1, 3, 4), ("f", "u", "i"), (1, 2, 4, 8)):
+    srt = lambda xs: sorted(xs, key=repr)
+    for ndim, ch, kind, size in itertools.product(srt(doms["NDIM"]), srt(doms["SHAPE2"]), srt(doms["KIND"]), srt(doms["ITEMSIZE"])):
         vals = {"NDIM": ndim, "SHAPE2": ch, "KIND": kind, "ITEMSIZE": size}
         envt = {a: vals[ro] for a, ro in roles.items()}
         out = "RAISE"
@@ -354,8 +377,18 @@ def _r4_dtype_tables(run):
     f1, t1 = _mode_table(project, IMG + "._array_to_mode", role_array)
     f2, t2 = _mode_table(project, IMG + ".ImageMode.from_array_info", role_info)
     run.note_func(f1, f2)
-    unknown = [k for k in t1 if t1[k] is UNKNOWN or t2[k] is UNKNOWN or t1[k] == "UNKNOWN" or t2[k] == "UNKNOWN"]
-    diff = [k for k in t1 if k not in unknown and t1[k] != t2[k]]
+    common_keys = [k for k in t1 if k in t2]
+    unknown = [k for k in common_keys if t1[k] is UNKNOWN or t2[k] is UNKNOWN or t1[k] == "UNKNOWN" or t2[k] == "UNKNOWN"]
+    diff = [k for k in common_keys if k not in unknown and t1[k] != t2[k]]
+    # a value only one of the two functions tests for: the other must reject it (RAISE) for the tables to agree
+    for k in t1:
+        if k not in t2 and t1[k] != "RAISE":
+            diff.append(k)
+            t2[k] = "(value not tested: no mode)"
+    for k in t2:
+        if k not in t1 and t2[k] != "RAISE":
+            diff.append(k)
+            t1[k] = "(value not tested: no mode)"
     n_modes = len({v for v in t1.values() if isinstance(v, str) and v.startswith("MODE:")})
     if diff:
         k = diff[0]
